@@ -191,3 +191,35 @@ var _ = pr.AutoF
 //@   loop 11 invariant extraPerColumn * real(numColumns) == extraWidth
 //@   loop 11 invariant table.Width.V() == extraWidth + sumColumnWidths + allBorderSpacing
 //@   loop 11 invariant sum(outCW, 0, rangeindex + 1) + sum(outCW, rangeindex + 1, len(outCW)) == sumColumnWidths + real(rangeindex + 1) * extraPerColumn
+
+// distributeExcessWidth only rewrites the column widths it is given (assumed: the function
+// and its helpers are not under contract)
+//@ func distributeExcessWidth
+//@   props C13
+//@   modifies columnWidths[..]
+//@   trusted "frame only: the excess-width distribution writes to the column width list and nothing else the caller can see"
+
+// intrinsic widths of a table: min-content <= max-content (assumed: the 300-line computation in
+// preferred.go is not under contract)
+//@ func tableAndColumnsPreferredWidths
+//@   props C13
+//@   modifies anything
+//@   ensures result.tableMinContentWidth <= result.tableMaxContentWidth
+//@   trusted "min-content <= max-content of the intrinsic width computation is assumed, not proved"
+
+// Automatic table layout (css-tables-3 §3.9): whatever the distribution of widths over the
+// columns, the used width of the table is never smaller than the minimum content width of
+// the table (CSS 2.1 §17.5.2.2: max(W, CAPMIN, MIN)).
+//@ func autoTableLayout
+//@   props C13
+//@   requires context != nil && box_ != nil
+//@   modifies anything
+//@   ensures[min-content] table.Width.V() >= tmp.tableMinContentWidth
+//@   loop 1 invariant table.Width.V() >= tmp.tableMinContentWidth
+//@   loop 2 invariant table.Width.V() >= tmp.tableMinContentWidth
+//@   loop 3 invariant table.Width.V() >= tmp.tableMinContentWidth
+//@   loop 4 invariant table.Width.V() >= tmp.tableMinContentWidth
+//@   loop 5 invariant table.Width.V() >= tmp.tableMinContentWidth
+//@   loop 6 invariant table.Width.V() >= tmp.tableMinContentWidth
+//@   loop 7 invariant table.Width.V() >= tmp.tableMinContentWidth
+//@   loop 8 invariant table.Width.V() >= tmp.tableMinContentWidth
